@@ -1,43 +1,12 @@
-(* C05: facts about the generated distance entry and the kernel-expression evaluator *)
+(* C05: facts about the kernel-expression evaluator: stationary range, symmetry, pointwise algebra,
+   inactive dimensions, time product *)
 From Coq Require Import Reals List ZArith Lra Lia.
 From Coquelicot Require Import Coquelicot.
-From MellonV Require Import ALists AKernels AKExpr ACovFunc AListsFacts AProfiles.
+From MellonV Require Import ALists ARealExtra AKernels AKExpr ACovFunc AListsFacts ADocumented ADistThm.
 Import ListNotations.
 Open Scope R_scope.
 
-(* ------------------------------------------------------------------ distance *)
-Lemma eps12_pos : 0 < 1 / 1000000000000. Proof. lra. Qed.
-
-Lemma dist_pts_documented x y : length x = length y ->
-  dist_pts x y = sqrt (sqdist x y + 1 / 1000000000000).
-Proof.
-  intros H. unfold dist_pts, distance_entry. rewrite <- (sqdist_expand x y H).
-  rewrite Rmax_left; [reflexivity|]. pose proof (sqdist_nonneg x y). lra.
-Qed.
-
-Lemma dist_pts_sym x y : dist_pts x y = dist_pts y x.
-Proof. unfold dist_pts, distance_entry. rewrite (dot_comm y x). do 2 f_equal. ring. Qed.
-
-Lemma sqrt_eps12 : sqrt (1 / 1000000000000) = 1 / 1000000.
-Proof.
-  replace (1 / 1000000000000) with ((1 / 1000000) * (1 / 1000000)) by lra.
-  apply sqrt_square. lra.
-Qed.
-
-Lemma dist_pts_ge x y : length x = length y -> 1 / 1000000 <= dist_pts x y.
-Proof.
-  intros H. rewrite dist_pts_documented by exact H. rewrite <- sqrt_eps12.
-  apply sqrt_le_1_alt. pose proof (sqdist_nonneg x y). lra.
-Qed.
-
-Lemma dist_pts_self x : dist_pts x x = 1 / 1000000.
-Proof. rewrite dist_pts_documented by reflexivity. rewrite sqdist_self, Rplus_0_l. apply sqrt_eps12. Qed.
-
-Lemma dist_pts_pos x y : length x = length y -> 0 < dist_pts x y.
-Proof. intros H. pose proof (dist_pts_ge x y H). lra. Qed.
-
 (* ------------------------------------------------------------------ stationary range *)
-Definition stationary (b : base) : Prop := match b with BLinear => False | _ => True end.
 
 Definition profile (b : base) (ls d : R) : R :=
   match b with
@@ -155,10 +124,6 @@ Lemma keval_pow_nat l (n : nat) ad x y : 0 < keval l (sel ad x) (sel ad y) ->
   keval (KPow l (INR n) ad) x y = keval l (sel ad x) (sel ad y) ^ n.
 Proof. intros H. rewrite keval_pow. apply Rpower_pow. exact H. Qed.
 
-Definition dims_of (e : kexpr) : dims :=
-  match e with
-  | KBase _ _ ad | KAdd _ _ ad | KAddC _ _ ad | KMul _ _ ad | KMulC _ _ ad | KPow _ _ ad => ad
-  end.
 
 Lemma keval_reads_selection e x y x' y' :
   sel (dims_of e) x = sel (dims_of e) x' -> sel (dims_of e) y = sel (dims_of e) y' ->
